@@ -281,4 +281,65 @@ theorem writeFrame_rfc (lf : LibFrame) (k : Key) (hw : lf.opcode.isWire = true)
   unfold LibFrame.toSpec
   cases lf.mask <;> simp [mask_involution]
 
+theorem serializeHeader_ok (lf : LibFrame) (hw : lf.opcode.isWire = true) :
+    ∃ h, serializeHeader lf = .ok h := by
+  have h2 := byte0_lt lf.fin lf.rsv1 lf.rsv2 lf.rsv3 lf.opcode hw
+  have h4 : (if lf.payloadLength ≤ 125 then lf.payloadLength
+      else if lf.payloadLength ≤ 0xFFFF then 126 else 127) = Rfc.lenCode lf.payloadLength := rfl
+  have h1 := byte1_ser (Rfc.lenCode lf.payloadLength) (lenCode_lt _) lf.mask
+  have h3 : 128 * b2n lf.mask + Rfc.lenCode lf.payloadLength < 256 := by
+    have := lenCode_lt lf.payloadLength
+    cases lf.mask <;> simp [b2n] <;> omega
+  simp only [serializeHeader, byte0_ser _ _ _ _ _ hw, h4, h1, packBB, packB, h2, h3, if_true]
+  exact ⟨_, rfl⟩
+
+/-- error branch of the writer: a `payload_length` that does not fit 64 bits raises `struct.error`
+    in `writeDataHeader`, after the two header bytes have already been sent -/
+theorem writeFrame_too_long (lf : LibFrame) (hw : lf.opcode.isWire = true)
+    (h : 2 ^ 64 ≤ lf.payloadLength) : ∃ hdr, writeFrame lf = ([hdr], some .structError) := by
+  obtain ⟨hdr, hh⟩ := serializeHeader_ok lf hw
+  refine ⟨hdr, ?_⟩
+  have a : lf.payloadLength > 125 := by omega
+  have b : ¬ lf.payloadLength ≤ 0xFFFF := by omega
+  have c : ¬ lf.payloadLength < 2 ^ 64 := by omega
+  simp [writeFrame, hh, serializeDataHeader, a, b, packQ, c]
+
+
+/-! ### the literal transcription of `hasFrame()` -/
+
+theorem hasFrame_literal (buf : Buf) : hasFrameLit buf = .ok (hasFrame buf) := by
+  match buf with
+  | [] => rfl
+  | [_] => rfl
+  | a :: b1 :: t =>
+    simp only [hasFrameLit, hasFrame, frameSize, List.length_cons, List.getElem?_cons_succ,
+      List.getElem?_cons_zero, slice, List.drop_succ_cons, List.drop_zero]
+    have h0 : ¬ (t.length + 1 + 1 < 2) := by omega
+    simp only [h0, if_false]
+    by_cases h6 : b1.toNat &&& 0x7F = 126
+    · simp only [h6, if_true]
+      match t with
+      | [] => simp
+      | [_] => simp
+      | c :: d :: t' =>
+        have h4 : ¬ (t'.length + 1 + 1 + 1 + 1 < 4) := by omega
+        by_cases hm : b1.toNat &&& 0x80 = 0 <;> simp [unpackH, hm, h4] <;> omega
+    · by_cases h7 : b1.toNat &&& 0x7F = 127
+      · simp only [h7, if_true]
+        match t with
+        | [] => simp
+        | [_] => simp
+        | [_, _] => simp
+        | [_, _, _] => simp
+        | [_, _, _, _] => simp
+        | [_, _, _, _, _] => simp
+        | [_, _, _, _, _, _] => simp
+        | [_, _, _, _, _, _, _] => simp
+        | c0 :: c1 :: c2 :: c3 :: c4 :: c5 :: c6 :: c7 :: t' =>
+          have h4 : ¬ (t'.length + 1 + 1 + 1 + 1 + 1 + 1 + 1 + 1 + 1 + 1 < 10) := by omega
+          by_cases hm : b1.toNat &&& 0x80 = 0 <;> simp [unpackQ, hm, h4] <;> omega
+      · simp only [h6, h7, if_false]
+        by_cases hm : b1.toNat &&& 0x80 = 0 <;> simp [hm] <;> omega
+
+
 end Mpgs.WebSocket
